@@ -22,7 +22,7 @@ JOBS = [
   Job("c20.timespec_gt", TU, "h_timespec_gt", enforce=["myth_timespec_gt/timespec_gt_contract"],
       fuc=["myth_timespec_gt"], timeout=120),
   Job("c20.nanosleep", TU, "h_nanosleep", enforce=["myth_nanosleep_body/nanosleep_contract"],
-      replace=KERNELS + ["hr_gettime/gettime_sleep_contract", "myth_yield_body/yield_sleep_contract"],
+      replace=KERNELS + ["hr_gettime/gettime_sleep_contract", "myth_yield_body/yield_sleep_contract", "myth_yield_ex_body/yield_ex_sleep_contract"],
       loops=L_NS, loop_counts={"myth_nanosleep_body": 1}, fuc=["myth_nanosleep_body"], timeout=200),
   Job("c20.usleep", TU, "h_usleep", replace=["myth_nanosleep_body/nanosleep_contract"], fuc=["myth_usleep_body"], timeout=120),
   Job("c20.usleep.ns.bounded", TU, "h_usleep_ns", replace=["myth_nanosleep_body/nanosleep_contract"], fuc=["myth_usleep_body"], timeout=200,
